@@ -5,7 +5,7 @@ import (
 	"github.com/markusressel/fan2go/internal/zzv"
 )
 
-//zzv:bound B1 = real NewFan + AttachFanRpmCurveData -> ComputePwmBoundaries on RPM-curve maps with 1..4 (thorough 1..6) entries, keys any distinct 0..255, RPM values any whole numbers 0..10^6 (thorough: any float64 0..10^6): start PWM = least key with int(rpm) > 0 (255 if none), max PWM = least key attaining the largest int(rpm) (255 if all are 0), whenever the limit is not configured
+//zzv:bound B1 = real NewFan + AttachFanRpmCurveData -> ComputePwmBoundaries on RPM-curve maps with 1..3 (thorough 1..6) entries, keys any distinct 0..255, RPM values any whole numbers 0..10^6 (thorough: any float64 0..10^6): start PWM = least key with int(rpm) > 0 (255 if none), max PWM = least key attaining the largest int(rpm) (255 if all are 0), whenever the limit is not configured
 //zzv:bound B2 = nil or empty data: error returned and no limit changed
 //zzv:bound B3 = all eight combinations of configured minPwm/startPwm/maxPwm (values any 0..255): configured values are what the getters return after attach
 //zzv:bound B4 = neverStop off: GetMinPwm() = 0 whatever is configured or measured
@@ -84,7 +84,7 @@ func zzEntries() int {
 	if zzv.Thorough() {
 		return zzv.Choice("entries", 6) + 1
 	}
-	return zzv.Choice("entries", 4) + 1
+	return zzv.Choice("entries", 3) + 1
 }
 
 func zzCheckLimits(fan *HwMonFan, cMin, cStart, cMax *int, keys []int, rpms []float64, suffix string) {
